@@ -285,14 +285,14 @@ def file_class(rel: str) -> str:
     return "dir"
 
 
-def history(scen, pdesc, storage, crash_points: list[dict], logdir: str, resume: str = "map") -> dict:
+def history(scen, pdesc, storage, crash_points: list[dict], logdir: str, resume: str = "map", kinds=None) -> dict:
     """One history: run (dies at crash_points[0]) -> resume (dies at crash_points[1]) ... -> final resume."""
     folder = tempfile.mkdtemp(prefix="pfverif_c05_", dir=logdir)
     shutil.rmtree(folder)
     logf = folder + ".calls"
     shapes = ext_shapes(scen)
     evs: list[dict] = []
-    meta = {"storage": storage, "crash": crash_points, "codes": [], "resume": resume}
+    meta = {"storage": storage, "crash": crash_points, "codes": [], "resume": resume, "kinds": kinds}
     try:
         pos = 0
         for n, cp in enumerate(crash_points + [None]):
@@ -301,18 +301,18 @@ def history(scen, pdesc, storage, crash_points: list[dict], logdir: str, resume:
                 code, payload = in_child(learners_job(pdesc, scen["inputs"], folder, logf))
                 if payload is not None and payload["ev"][-1]["e"] == "ldone":
                     payload["ev"].append(pmap.ev(e="stored", disk=observe_disk(folder, shapes)))
-                    code2, p2 = in_child(map_job(pdesc, scen["inputs"], folder, storage, False, logf))
+                    code2, p2 = in_child(map_job(pdesc, scen["inputs"], folder, storage, False, logf, kinds=kinds))
                     if p2 is None:
                         raise MachineryError(f"final map child exited with {code2}")
                     payload["ev"] += p2["ev"]
             elif cp is None:
-                code, payload = in_child(map_job(pdesc, scen["inputs"], folder, storage, cleanup, logf,
+                code, payload = in_child(map_job(pdesc, scen["inputs"], folder, storage, cleanup, logf, kinds=kinds,
                                                  pool=resume.split("-")[1] if resume.startswith("map-") else None))
             elif cp["kind"] == "fs":
-                code, payload = in_child(map_job(pdesc, scen["inputs"], folder, storage, cleanup, logf,
+                code, payload = in_child(map_job(pdesc, scen["inputs"], folder, storage, cleanup, logf, kinds=kinds,
                                                  die_after=cp["k"], torn=cp.get("torn", False)))
             else:
-                code, payload = in_child(map_job(pdesc, scen["inputs"], folder, storage, cleanup, logf, fail=cp))
+                code, payload = in_child(map_job(pdesc, scen["inputs"], folder, storage, cleanup, logf, fail=cp, kinds=kinds))
             meta["codes"].append(code)
             if payload is not None:
                 evs += payload["ev"]
@@ -426,6 +426,11 @@ def run(ctx: Ctx) -> None:
                     for kind in ("map-thread", "map-process"):
                         hist.append(history(scen, pdesc, st, [{"kind": "fs", "k": k}], logdir, resume=kind))
                         opsof.append(ops)
+                # inputs that cannot be compared (== raises): the resumed run cannot tell and must proceed
+                for k in ks[2::5] if quick else ks[::2]:
+                    hist.append(history(scen, pdesc, st, [{"kind": "fs", "k": k}], logdir,
+                                        kinds={n: "noeq" for n, _ in scen["inputs"]}))
+                    opsof.append(ops)
                 # two successive crashes
                 pairs = [(rng.choice(ks), rng.randint(1, max(1, len(ops)))) for _ in range(3 if quick else 25)]
                 for k1, k2 in pairs:
@@ -523,7 +528,7 @@ def replay(rep: dict) -> int:
     try:
         scen = {"desc": w["desc"], "inputs": w["inputs"]}
         t = history(scen, pmap.tla_desc_to_py(w["desc"]), w["meta"]["storage"], w["meta"]["crash"], logdir,
-                    resume=w["meta"].get("resume", "map"))
+                    resume=w["meta"].get("resume", "map"), kinds=w["meta"].get("kinds"))
     finally:
         shutil.rmtree(logdir, ignore_errors=True)
     print([(x["e"], x["f"], x.get("cls", "")) for x in t["ev"]])
